@@ -65,6 +65,17 @@ theorem level_heuristic_when_resolve_fails (importPath : List String) (level : N
 
 /-! ## the walk over the dotted name -/
 
+/-- **Module discovery is delegated to the finders, entirely.**  In `import_module` the pair
+`(file_io_or_ns, is_pkg)` has exactly two producers and both are `get_module_info` calls (the real
+importlib finders of the target interpreter, run in the helper); neither `import_module` nor a helper
+it calls before it has a file looks at the file system itself.  So the `find` parameter of the walk
+below IS importlib - a "fast path" that probes `<dir>/<name>.py` (or any other own rule about which
+of a module and a same-named package wins) makes this statement false. -/
+theorem module_lookup_only_through_finders :
+    JediModel.Gen.C10.moduleInfoProducers = ["get_module_info", "get_module_info"] ∧
+      JediModel.Gen.C10.importModuleFileProbes = [] := by decide
+
+
 /-- With importlib's finder as `find` (and no stale cache entry) the fold of
 `import_module_by_names` is Python's import of the whole dotted name: same module, and nothing as
 soon as one component cannot be found or a parent is not a package. -/
